@@ -3,6 +3,7 @@ CONSTANTS
   Part = "mixed"
   MaxLinesA = 1
   MaxLinesB = 1
+  KF_ScanRecheckLeak = FALSE
   KF_FindUnitRelock = FALSE
   MaxOps = 0
   ExportOps = 0
